@@ -94,6 +94,20 @@ fix(
     ),
 )
 
+fix(
+    "C05",
+    "fix: reject a week period given with a month-precision date (week:YYYY-MM)",
+    (
+        "openfisca_core/periods/helpers.py",
+        "        # Reject ambiguous periods such as month:2014\n        if unit_weight(period.unit) > unit_weight(unit):\n",
+        "        # Reject ambiguous periods such as month:2014 (a week is finer than a\n"
+        "        # month although both weigh the same).\n"
+        "        if unit_weight(period.unit) > unit_weight(unit) or (\n"
+        "            unit == DateUnit.WEEK and period.unit == DateUnit.MONTH\n"
+        "        ):\n",
+    ),
+)
+
 TBS = "openfisca_core/taxbenefitsystems/tax_benefit_system.py"
 fix(
     "C07",
